@@ -506,10 +506,28 @@ func (p *Plugin) appendIndexName(outBuf []byte, event *pipeline.Event) []byte {
 			if value == "" {
 				value = "not_set"
 			}
-			outBuf = append(outBuf, value...)
+			outBuf = appendJSONStringContent(outBuf, value)
 		}
 	}
 	outBuf = append(outBuf, "\"}}"...)
+	return outBuf
+}
+
+// appendJSONStringContent appends s as the content of a JSON string (without the surrounding quotes):
+// quotes, backslashes and control characters are escaped, so a field value can't break the action line.
+func appendJSONStringContent(outBuf []byte, s string) []byte {
+	const hex = "0123456789abcdef"
+	for i := 0; i < len(s); i++ {
+		c := s[i]
+		switch {
+		case c == '"' || c == '\\':
+			outBuf = append(outBuf, '\\', c)
+		case c < 0x20:
+			outBuf = append(outBuf, '\\', 'u', '0', '0', hex[c>>4], hex[c&0xf])
+		default:
+			outBuf = append(outBuf, c)
+		}
+	}
 	return outBuf
 }
 
